@@ -1,7 +1,7 @@
 (* C14 - Ergodicity predicates agree with the transition graph.
    Statements only; proofs in Proofs/ErgodicFacts.v (on Proofs/QMatFacts.v). *)
 From Coq Require Import List ZArith Arith Bool QArith Qcanon.
-From MsmV Require Import Lib.Result Lib.PyList Lib.QMat Model.Ergodic Proofs.QMatFacts Proofs.ErgodicFacts Proofs.ErgodicFinite.
+From MsmV Require Import Lib.Result Lib.PyList Lib.QMat Model.Ergodic Proofs.QMatFacts Proofs.ErgodicFacts Proofs.ErgodicFinite Proofs.Wielandt Proofs.ErgodicFull.
 Import ListNotations.
 Local Open Scope nat_scope.
 
@@ -27,15 +27,30 @@ Theorem ergodic_sound_thm : forall n M,
 Proof. exact ergodic_sound. Qed.
 Print Assumptions ergodic_sound_thm.
 
-(* completeness, partial: graphs connected in the sense of the lazy closure with
-   at least one self-loop (the regime of metastable MD models) have all walks of
-   every length >= 2(n-1), and 2(n-1) <= (n-1)^2+1.  The general statement
-   (Wielandt: strongly connected and aperiodic => all walks of length (n-1)^2+1)
-   is NOT proved; it is compared on every case against the independent graph
-   algorithm graph_ergodic and exhaustively for n <= 4 in the thorough tier. *)
-Definition ergodic_complete_full : Prop := forall n G, bwf n G -> 0 < n ->
+(* completeness in full generality (Wielandt's bound, Proofs/Wielandt.v): a strongly connected,
+   aperiodic graph on n vertices has walks of length exactly (n-1)^2+1 between all pairs *)
+Theorem ergodic_complete_thm : forall n G, bwf n G -> 0 < n ->
   strongly_connected G -> aperiodic G -> forall i j, i < n -> j < n -> walk G (wexp n) i j.
+Proof. exact wielandt. Qed.
+Print Assumptions ergodic_complete_thm.
 
+(* hence the predicate that runs is characterised exactly: for a matrix accepted as transition
+   matrix whose Wielandt power has no entry in (0, 1e-8], "ergodic" is reported if and only if the
+   transition graph is strongly connected and aperiodic *)
+Theorem is_ergodic_iff_graph_thm : forall n M, 0 < n -> wf n n M -> entries_nonneg M -> rows_sum_one M ->
+  is_tmat atol8 M = true -> power_threshold_free n M ->
+  (is_ergodic atol8 M = true <-> strongly_connected (supp M) /\ aperiodic (supp M)).
+Proof. exact is_ergodic_iff_graph. Qed.
+Print Assumptions is_ergodic_iff_graph_thm.
+
+(* the boolean power test decides "strongly connected and aperiodic" for every size *)
+Theorem bpow_wexp_iff_graph_thm : forall n G, bwf n G -> 0 < n ->
+  (ball (bpow G (wexp n)) = true <-> strongly_connected G /\ aperiodic G).
+Proof. exact bpow_wexp_iff_graph. Qed.
+Print Assumptions bpow_wexp_iff_graph_thm.
+
+(* special case kept from the first development: lazily connected graphs with a self-loop
+   (the regime of metastable MD models) already have all walks of every length >= 2(n-1) *)
 Theorem ergodic_complete_loop_partial : forall n G v,
   bwf n G -> graph_connected G = true -> v < n -> bget G v v = true ->
   forall k, 2 * (n - 1) <= k -> forall i j, i < n -> j < n -> walk G k i j.
@@ -46,8 +61,9 @@ Theorem wielandt_exponent_covers_loop_bound : forall n, 1 <= n -> 2 * (n - 1) <=
 Proof. exact wexp_ge. Qed.
 Print Assumptions wielandt_exponent_covers_loop_bound.
 
-(* completeness, finite part: for ALL transition graphs on at most 4 vertices the power
-   test with the Wielandt exponent agrees with the independent graph test (strongly
+(* cross-validation of the INDEPENDENT executable graph test used by the harness (lazy closure +
+   gcd of closed-walk lengths): for ALL transition graphs on at most 4 vertices it agrees with the
+   power test with the Wielandt exponent (strongly
    connected by lazy closure, period 1); exhaustive enumeration inside the kernel
    (vm_compute over all 2^16 + 2^9 + 2^4 + 2 graphs), bound in the statement *)
 Theorem ergodic_complete_le4 : forall n G, bwf n G -> 1 <= n -> n <= 4 ->
